@@ -107,17 +107,17 @@ func init() {
 			cases = append(cases, Case{"cmd": "builtinseq", "seed": c.Seed})
 			// hand-picked dictionaries
 			hand := []Case{
-				{"cmd": "userdict", "attrs": []UAttr{{"Perfect5", "bb5"}}, "chords": []UChord{{"U1", "u1", []string{"Perfect1", "Perfect5"}, ""}}},                                             // attribute override: later wins
-				{"cmd": "userdict", "attrs": []UAttr{}, "chords": []UChord{{"A", "a", nil, "B"}, {"B", "b", nil, "C"}, {"C", "c", nil, "A"}}},                                                      // 3-cycle
-				{"cmd": "userdict", "attrs": []UAttr{}, "chords": []UChord{{"T", "t", []string{"Major3"}, "A"}, {"A", "a", nil, "B"}, {"B", "b", nil, "A"}}},                                       // a tail leading into a cycle
-				{"cmd": "userdict", "attrs": []UAttr{}, "chords": []UChord{{"T", "t", nil, "U"}, {"U", "u", nil, "V"}, {"V", "v", []string{"Major3"}, "V"}}},                                       // a tail leading into a self-loop
+				{"cmd": "userdict", "attrs": []UAttr{{"Perfect5", "bb5"}}, "chords": []UChord{{"U1", "u1", []string{"Perfect1", "Perfect5"}, ""}}},                                                  // attribute override: later wins
+				{"cmd": "userdict", "attrs": []UAttr{}, "chords": []UChord{{"A", "a", nil, "B"}, {"B", "b", nil, "C"}, {"C", "c", nil, "A"}}},                                                       // 3-cycle
+				{"cmd": "userdict", "attrs": []UAttr{}, "chords": []UChord{{"T", "t", []string{"Major3"}, "A"}, {"A", "a", nil, "B"}, {"B", "b", nil, "A"}}},                                        // a tail leading into a cycle
+				{"cmd": "userdict", "attrs": []UAttr{}, "chords": []UChord{{"T", "t", nil, "U"}, {"U", "u", nil, "V"}, {"V", "v", []string{"Major3"}, "V"}}},                                        // a tail leading into a self-loop
 				{"cmd": "userdict", "attrs": []UAttr{}, "chords": []UChord{{"A", "a", []string{"Major9"}, "B"}, {"B", "b", []string{"Minor7"}, "C"}, {"C", "c", []string{"Major6"}, "MinorTriad"}}}, // depth 3 over a built-in
 				{"cmd": "userdict", "attrs": []UAttr{}, "chords": []UChord{{"A", "a", []string{"Major9"}, "b"}, {"B", "b", []string{"Minor7"}, "m7b5"}}},                                            // extends by display
-				{"cmd": "userdict", "attrs": []UAttr{}, "split": true, "chords": []UChord{{"Child", "ch", []string{"Major9"}, "Parent"}, {"Parent", "pa", []string{"Perfect1", "Minor3"}, ""}}}, // the extending file comes first
+				{"cmd": "userdict", "attrs": []UAttr{}, "split": true, "chords": []UChord{{"Child", "ch", []string{"Major9"}, "Parent"}, {"Parent", "pa", []string{"Perfect1", "Minor3"}, ""}}},     // the extending file comes first
 				{"cmd": "userdict", "attrs": []UAttr{}, "split": true, "chords": []UChord{{"Parent", "pa", []string{"Perfect1", "Minor3"}, ""}, {"Child", "ch", []string{"Major9"}, "pa"}}},
 				{"cmd": "userdict", "attrs": []UAttr{}, "split": true, "chords": []UChord{{"Twice", "tw", []string{"Perfect1", "Minor3"}, ""}, {"Twice", "tw", []string{"Perfect1", "Major3", "Major6"}, ""}}}, // the later file wins
 				{"cmd": "userdict", "attrs": []UAttr{}, "split": true, "chords": []UChord{{"Twice", "tw", []string{"Perfect1", "Minor3"}, ""}, {"Other", "ot", nil, "tw"}, {"Twice", "tw", []string{"Perfect4"}, ""}}},
-				{"cmd": "userdict", "attrs": []UAttr{{"XA", "b2"}}, "chords": []UChord{{"", "zz", []string{"XA"}, ""}}},                                                                             // unnamed chord
+				{"cmd": "userdict", "attrs": []UAttr{{"XA", "b2"}}, "chords": []UChord{{"", "zz", []string{"XA"}, ""}}}, // unnamed chord
 			}
 			cases = append(cases, hand...)
 			attrVariants := [][]UAttr{{}, {{"XA", "b2"}, {"XB", "#11"}}, {{"XA", "b2"}, {"", "3"}}}
@@ -159,6 +159,16 @@ func init() {
 						}
 						pairs = append(pairs, Case{"cmd": "userdict", "attrs": av, "chords": []UChord{p, q}, "split": len(pairs)%3 == 1})
 					}
+				}
+			}
+			for i := range cases {
+				if cs(cases[i], "cmd") == "userdict" && i%5 == 0 {
+					cases[i]["blank"] = 1 + i/5%4
+				}
+			}
+			for i := range pairs {
+				if i%7 == 0 {
+					pairs[i]["blank"] = 1 + i/7%4
 				}
 			}
 			if c.quick() {
@@ -224,6 +234,16 @@ func init() {
 					f := c.writeTemp("a"+id+".yml", attrsYAML(ua))
 					extra = append(extra, "--attr", f)
 					files = append(files, f)
+				}
+				// a dictionary file without any entry (zero bytes, or a template with everything commented out) adds nothing
+				if bl := ci(k, "blank"); bl > 0 {
+					content := []string{"", "# - name: X\n#   attributes: []\n\n", "\n\n", "---\n"}[bl%4]
+					fa, fc := c.writeTemp("ba"+id+".yml", content), c.writeTemp("bc"+id+".yml", content)
+					files = append(files, fa, fc)
+					if bl%2 == 1 {
+						extra = append(extra, "--attr", fa)
+					}
+					extra = append(extra, "--chord", fc)
 				}
 				if cb(k, "split") && len(uc) > 1 {
 					// one file per entry, in the order written: a dictionary is the whole of its files, whatever their order
